@@ -300,7 +300,7 @@ impl Worker {
     fn stderr_tail(&self) -> String {
         let s = std::fs::read_to_string(&self.stderr_path).unwrap_or_default();
         let lines: Vec<&str> = s.lines().filter(|l| !l.starts_with("WARNING")).collect();
-        let start = lines.len().saturating_sub(60);
+        let start = lines.len().saturating_sub(400);
         lines[start..].join("\n")
     }
 
@@ -324,60 +324,64 @@ pub enum Outcome {
     Infra(String),
 }
 
-/// Extract a crash signature from the worker's stderr: the fatal message and the first simple_sds frame.
+/// Extract a crash signature from the worker's stderr: the kind of fatal event and the first frame inside /repo/src.
 fn crash_signature(status: &str, tail: &str) -> (String, String) {
+    let lines: Vec<&str> = tail.lines().collect();
+    // start of the last fatal report
+    let mut from = 0;
+    for (i, l) in lines.iter().enumerate() {
+        if l.contains("FATAL non-unwinding panic") || l.contains("AddressSanitizer") || l.contains("has overflowed its stack") {
+            from = i;
+        }
+    }
     let mut what = String::new();
-    for l in tail.lines() {
+    for l in &lines[from..] {
         if l.contains("unsafe precondition(s) violated") {
             what = "ub-check".to_string();
         } else if l.contains("AddressSanitizer") {
             what = "asan".to_string();
         } else if l.contains("misaligned pointer dereference") {
             what = "misaligned".to_string();
+        } else if l.contains("has overflowed its stack") {
+            what = "stack-overflow".to_string();
+        }
+        if !what.is_empty() {
+            break;
         }
     }
     if what.is_empty() {
         what = status.to_string();
     }
     let mut frame = String::new();
-    let lines: Vec<&str> = tail.lines().collect();
-    for (i, l) in lines.iter().enumerate() {
-        if let Some(p) = l.find("simple_sds::") {
-            let f = l[p..].trim();
-            // strip generic hashes like ::h1234
-            let f = f.split("::h").next().unwrap_or(f);
-            frame = f.to_string();
-            if let Some(next) = lines.get(i + 1) {
-                let next = next.trim();
-                if let Some(at) = next.strip_prefix("at ") {
-                    let at = at.strip_prefix("/repo/").unwrap_or(at);
-                    // drop the column
-                    let mut parts: Vec<&str> = at.split(':').collect();
-                    if parts.len() >= 3 {
-                        parts.pop();
-                    }
-                    frame = format!("{}@{}", frame, parts.join(":"));
-                }
+    for l in &lines[from..] {
+        let t = l.trim();
+        if let Some(at) = t.strip_prefix("at /repo/") {
+            let mut parts: Vec<&str> = at.split(':').collect();
+            if parts.len() >= 3 {
+                parts.pop();
             }
+            frame = parts.join(":");
             break;
         }
     }
-    (format!("crash:{}:{}", what, frame), what)
+    let excerpt: Vec<&str> = lines[from..].iter().copied().filter(|l| !l.contains("/rustc/") && !l.contains("core::") && !l.contains("std::")).take(40).collect();
+    (format!("crash:{}@{}", what, frame), excerpt.join("\n"))
 }
 
 struct Exec<P: Prop> {
     worker: Option<Worker>,
     scratch: PathBuf,
+    isolate: bool,
     _p: std::marker::PhantomData<P>,
 }
 
 impl<P: Prop> Exec<P> {
-    fn new(scratch: &Path) -> Self {
-        Exec { worker: None, scratch: scratch.to_path_buf(), _p: std::marker::PhantomData }
+    fn new(scratch: &Path, force_isolate: bool) -> Self {
+        Exec { worker: None, scratch: scratch.to_path_buf(), isolate: P::ISOLATE || force_isolate, _p: std::marker::PhantomData }
     }
 
     fn run(&mut self, case: &P::Case) -> Outcome {
-        if !P::ISOLATE {
+        if !self.isolate {
             return match run_caught::<P>(case) {
                 Ok(r) => Outcome::Pass(r),
                 Err(f) => Outcome::Fail(f),
@@ -429,12 +433,15 @@ impl<P: Prop> Exec<P> {
                 };
                 let tail = w.stderr_tail();
                 drop(w);
+                if tail.contains("memory allocation of") {
+                    return Outcome::Infra(format!("worker aborted on an allocation failure (resource outcome)\n{}", abbreviate(&tail, 1000)));
+                }
                 if status == "SIGKILL" {
                     // most likely the OOM killer or an external kill: resource outcome, not a verdict
                     return Outcome::Infra(format!("worker killed by SIGKILL (out of memory?)\n{}", tail));
                 }
-                let (sig, _) = crash_signature(&status, &tail);
-                Outcome::Fail(Fail::new(sig, format!("worker process died with {}; stderr tail:\n{}", status, abbreviate(&tail, 4000))))
+                let (sig, excerpt) = crash_signature(&status, &tail);
+                Outcome::Fail(Fail::new(sig, format!("the process executing this case died with {}; its last report:\n{}", status, abbreviate(&excerpt, 4000))))
             }
         }
     }
@@ -455,6 +462,8 @@ pub struct Opts {
     pub regress_dir: PathBuf,
     pub scratch: PathBuf,
     pub cases_override: Option<u32>,
+    /// run every case in a worker process even if the property does not ask for it
+    pub isolate: bool,
 }
 
 #[derive(Clone, Debug, Serialize, Deserialize)]
@@ -590,7 +599,7 @@ fn write_replay<P: Prop>(opts: &Opts, f: &Fail, case: &P::Case) -> String {
 }
 
 fn run_shard<P: Prop>(opts: &Opts, shard: usize, known: &[Known], stop: &AtomicBool) -> ShardStats {
-    let mut ctx: ShardCtx<P> = ShardCtx { exec: Exec::new(&opts.scratch), stats: ShardStats::default(), known, stop, failed: false, want_samples: if shard == 0 { 3 } else { 1 } };
+    let mut ctx: ShardCtx<P> = ShardCtx { exec: Exec::new(&opts.scratch, opts.isolate), stats: ShardStats::default(), known, stop, failed: false, want_samples: if shard == 0 { 3 } else { 1 } };
 
     // 1. regression replays (saved shrunk failures), shard 0 only
     if shard == 0 {
@@ -799,7 +808,7 @@ pub fn run_prop<P: Prop>(opts: &Opts) -> i32 {
         "violations": violations,
         "infra": infra,
         "assumptions": P::assumptions(),
-        "isolated": P::ISOLATE,
+        "isolated": P::ISOLATE || opts.isolate,
         "wall_s": start.elapsed().as_secs_f64(),
     });
     if let Err(e) = std::fs::write(&opts.out, serde_json::to_string_pretty(&frag).unwrap()) {
@@ -813,7 +822,7 @@ pub fn run_prop<P: Prop>(opts: &Opts) -> i32 {
         for v in &violations {
             println!("VIOLATION property={} replay={}", P::ID, v.replay);
             println!("  config={} signature={}", opts.cfg, v.sig);
-            for l in abbreviate(&v.msg, 3000).lines().take(40) {
+            for l in abbreviate(&v.msg, 3000).lines().take(24) {
                 println!("  | {}", l);
             }
         }
@@ -829,6 +838,7 @@ pub fn run_prop<P: Prop>(opts: &Opts) -> i32 {
 }
 
 pub fn replay_main<P: Prop>(file: &Path, scratch: &Path, cfg: &str) -> i32 {
+    // replays always run isolated so that a crash is reported instead of taking the reporter down
     install_panic_hook();
     let text = match std::fs::read_to_string(file) {
         Ok(t) => t,
@@ -845,7 +855,7 @@ pub fn replay_main<P: Prop>(file: &Path, scratch: &Path, cfg: &str) -> i32 {
         }
     };
     let _ = std::fs::create_dir_all(scratch);
-    let mut exec: Exec<P> = Exec::new(scratch);
+    let mut exec: Exec<P> = Exec::new(scratch, true);
     match exec.run(&rf.case) {
         Outcome::Pass(_) => {
             println!("REPLAY property={} config={} case passes", P::ID, cfg);
